@@ -1,0 +1,16 @@
+//go:build verif
+
+package json
+
+import "math/big"
+
+// Verification hook for C33 (JSON encodings round-trip): cryptoParameter is
+// unexported; these two functions let the harness marshal and unmarshal one
+// on its own.
+
+// VerifC33CryptoParameter returns a *cryptoParameter wrapping x (x may be nil).
+func VerifC33CryptoParameter(x *big.Int) interface{} { return &cryptoParameter{Int: x} }
+
+// VerifC33CryptoParameterInt returns the big.Int inside a value made by
+// VerifC33CryptoParameter.
+func VerifC33CryptoParameterInt(v interface{}) *big.Int { return v.(*cryptoParameter).Int }
